@@ -29,6 +29,23 @@ def field? : String → Option Field
   | "core.package" => some .corePkg | "core.deps" => some .coreDeps | "core.core_ir" => some .coreBody
   | _ => none
 
+/-- `<field>.older`: the same field set to the next SMALLER number (an artefact of an earlier format
+    version / ABI) — the harness skips the operation when the value is already 0 -/
+def olderField? (f : String) : Option Field :=
+  if f.endsWith ".older" then
+    match field? (f.dropRight 6) with
+    | some .version => some .version | some .abi => some .abi
+    | some .coreVersion => some .coreVersion | some .coreAbi => some .coreAbi
+    | _ => none
+  else none
+
+def olderCorruption? (f : Field) (i : Iface) (c : Option Core) : Option Corruption :=
+  let cur : Nat := match f with
+    | .version => i.view.version | .abi => i.view.abi
+    | .coreVersion => (c.map (·.version)).getD 0 | .coreAbi => (c.map (·.abi)).getD 0
+    | _ => 0
+  if cur == 0 then none else some { field := f, nat := cur - 1 }
+
 def mkCorruption (f : Field) (i : Iface) (c : Option Core) : Corruption :=
   match f with
   | .version => { field := f, nat := i.view.version + 1 }
@@ -77,10 +94,15 @@ def doOp (r : Run) : Sexp → Run
     | .ok _ => emit r "ok"
     | .error e => emit r s!"err {errClass e}"
   | .list [.atom "corrupt-iface", .atom p, .atom f] =>
-    match field? f, r.st.ifaceFile p with
-    | some fld, some i =>
+    match olderField? f, field? f, r.st.ifaceFile p with
+    | some fld, _, some i =>
+      if i.tainted then emit r "ok"
+      else match olderCorruption? fld i none with
+        | some k => emit { r with st := step H r.st (.corruptIfaceFile p k) } "ok"
+        | none => emit r "skip"
+    | none, some fld, some i =>
       emit { r with st := step H r.st (.corruptIfaceFile p (mkCorruption fld i none)) } "ok"
-    | _, _ => emit r "skip"
+    | _, _, _ => emit r "skip"
   | .list [.atom "corrupt-core", .atom p, .atom "core.deps.current"] =>
     -- the core's own dependency table rewritten to the hashes the dependencies export now
     match r.st.coreFile p with
@@ -98,10 +120,15 @@ def doOp (r : Run) : Sexp → Run
       else emit { r with st := step H r.st (.corruptCoreFile p { field := .coreDeps, deps := [] }) } "ok"
     | none => emit r "skip"
   | .list [.atom "corrupt-core", .atom p, .atom f] =>
-    match field? f, r.st.coreFile p with
-    | some fld, some c =>
+    match olderField? f, field? f, r.st.coreFile p with
+    | some fld, _, some c =>
+      if c.tainted then emit r "ok"
+      else match olderCorruption? fld c.iface (some c) with
+        | some k => emit { r with st := step H r.st (.corruptCoreFile p k) } "ok"
+        | none => emit r "skip"
+    | none, some fld, some c =>
       emit { r with st := step H r.st (.corruptCoreFile p (mkCorruption fld c.iface (some c))) } "ok"
-    | _, _ => emit r "skip"
+    | _, _, _ => emit r "skip"
   | .list [.atom "foreign-iface", .atom p, ver, abi] =>
     emit { r with st := step H r.st (.foreignIface p (ver.nat?.getD 0) (abi.nat?.getD 0)) } "ok"
   | _ => emit r "bad-op"
